@@ -146,6 +146,10 @@ impl CacheKey for RowIdIndexKey {
 
 #[derive(Debug)]
 pub struct RowIdSequenceKey {
+    /// Version of the manifest the fragment was taken from. Fragment ids are
+    /// only unique within one version: an overwrite numbers its fragments
+    /// from 0 again.
+    pub version: u64,
     pub fragment_id: u64,
 }
 
@@ -153,7 +157,10 @@ impl CacheKey for RowIdSequenceKey {
     type ValueType = RowIdSequence;
 
     fn key(&self) -> Cow<'_, str> {
-        Cow::Owned(format!("row_id_sequence/{}", self.fragment_id))
+        Cow::Owned(format!(
+            "row_id_sequence/{}/{}",
+            self.version, self.fragment_id
+        ))
     }
 }
 
